@@ -216,3 +216,167 @@ func TestC11Values(t *testing.T) {
 		}
 	}
 }
+
+// Stream "repeat": the oracle decides every occurrence of a repeated value.
+func TestC11RepeatOracleVerdicts(t *testing.T) {
+	p := c11{}
+	two := []c1xLit{c11L(2.0), c11L(2.0)}
+	decls := []c11RepGroup{{c11SkDecl, []int{0}}, {c11SkDecl, []int{1}}}
+	tab := []struct {
+		groups []c11RepGroup
+		lits   []c1xLit
+		plain  bool
+		out    string
+		good   bool
+	}{
+		{decls, two, false, "package p\n\nvar _ = 2.0\nvar _ = 2.0\n", true},
+		{decls, two, false, "package p\n\nvar _ = 2.0\nvar _ = 2\n", false}, // the second occurrence lost its type
+		{decls, two, false, "package p\n\nvar _ = 2\nvar _ = 2.0\n", false},
+		{decls, two, false, "package p\n\nvar _ = 2.0\n", false},
+		{decls, two, false, "package p\n\nvar _, _ = 2.0, 2.0\n", false}, // not the planned statements
+		{[]c11RepGroup{{c11SkList, []int{0, 1}}}, two, true, "var _, _ = 2.0, 2.0", true},
+		{[]c11RepGroup{{c11SkList, []int{0, 1}}}, two, true, "var _, _ = 2.0, 2", false},
+		{[]c11RepGroup{{c11SkList, []int{0, 1}}}, two, true, "var _, _ = 2.0, float32(2)", false},
+		{[]c11RepGroup{{c11SkValues, []int{0, 1}}}, two, true, "var _ = []interface{}{2.0, 2.0}", true},
+		{[]c11RepGroup{{c11SkValues, []int{0, 1}}}, two, true, "var _ = []interface{}{2.0, 2}", false},
+		{[]c11RepGroup{{c11SkValues, []int{0, 1}}}, two, true, "var _ = []interface{}{2.0}", false},
+		{[]c11RepGroup{{c11SkValues, []int{0, 1}}}, two, true, "var _ = []float64{2.0, 2}", false},
+		{[]c11RepGroup{{c11SkAppend, []int{0, 1}}}, two, true, "var _ = append([]interface{}{}, 2.0, 2.0)", true},
+		{[]c11RepGroup{{c11SkAppend, []int{0, 1}}}, two, true, "var _ = append([]interface{}{}, 2.0, 2)", false},
+		{[]c11RepGroup{{c11SkAppend, []int{0, 1}}}, two, true, "var _ = append([]interface{}{2.0}, 2.0)", false},
+		// inside a comparison go/types gives both operands one type: each operand is judged on its own text
+		{[]c11RepGroup{{c11SkEq, []int{0, 1}}}, two, true, "var _ = 2.0 == 2.0", true},
+		{[]c11RepGroup{{c11SkEq, []int{0, 1}}}, two, true, "var _ = 2.0 == 2", false},
+		{[]c11RepGroup{{c11SkEq, []int{0, 1}}}, two, true, "var _ = 2.0 != 2.0", false},
+		// twins: every occurrence keeps ITS type
+		{[]c11RepGroup{{c11SkList, []int{0, 1, 2, 3}}}, []c1xLit{c11L(int8(1)), c11L(int16(1)), c11L(int8(1)), c11L(int16(1))}, true,
+			"var _, _, _, _ = int8(1), int16(1), int8(1), int16(1)", true},
+		{[]c11RepGroup{{c11SkList, []int{0, 1, 2, 3}}}, []c1xLit{c11L(int8(1)), c11L(int16(1)), c11L(int8(1)), c11L(int16(1))}, true,
+			"var _, _, _, _ = int8(1), int16(1), int8(1), int8(1)", false},
+		{[]c11RepGroup{{c11SkValues, []int{0, 1, 2}}}, []c1xLit{c11L(1.0), c11L(float32(1)), c11L(1.0)}, true,
+			"var _ = []interface{}{1.0, float32(1), 1.0}", true},
+		{[]c11RepGroup{{c11SkValues, []int{0, 1, 2}}}, []c1xLit{c11L(1.0), c11L(float32(1)), c11L(1.0)}, true,
+			"var _ = []interface{}{1.0, 1.0, 1.0}", false},
+		// bystanders
+		{[]c11RepGroup{{c11SkList, []int{0, 1, 2, 3}}}, []c1xLit{c11L("1"), {Kind: "rune", V: 'a'}, {Kind: "byte", V: byte(1)}, c11L("1")}, true,
+			"var _, _, _, _ = \"1\", 'a', byte(0x1), \"1\"", true},
+		{[]c11RepGroup{{c11SkList, []int{0, 1, 2, 3}}}, []c1xLit{c11L("1"), {Kind: "rune", V: 'a'}, {Kind: "byte", V: byte(1)}, c11L("1")}, true,
+			"var _, _, _, _ = \"1\", 'a', byte(0x1), 1", false},
+		{[]c11RepGroup{{c11SkList, []int{0, 1}}}, []c1xLit{c11L(true), c11L(true)}, true, "var _, _ = true, \"true\"", false},
+	}
+	for i, e := range tab {
+		c := c11RepCaseOf(e.groups, e.lits, e.plain, true, nil)
+		m := c11RepCheck(e.out, e.plain, e.groups, e.lits)
+		if (m == "") != e.good {
+			t.Errorf("row %d, output %q: accepted=%v, want %v (%s)", i, e.out, m == "", e.good, m)
+		}
+		// through the property's Oracle a rejected output stays rejected (an accepted one is then
+		// compared with the direct builds, which render the real thing)
+		if !e.good && p.Oracle(c, c1xFakeWrite(e.out)) == "" {
+			t.Errorf("row %d: the Oracle accepts %q", i, e.out)
+		}
+	}
+}
+
+// The repetition cases of a generated run: accepted on the implementation; the direct build
+// with LitFunc gives the same bytes and calls one callback per Func occurrence; a renderer that
+// forgets the type of a repeated whole float64 is caught.
+func TestC11RepeatStream(t *testing.T) {
+	p := c11{}
+	cases := c11RepCases(rand.New(rand.NewSource(5)), "quick")
+	if len(cases) < 800 {
+		t.Fatalf("only %d cases", len(cases))
+	}
+	tags := map[string]int{}
+	caught := 0
+	for i, c := range cases {
+		for _, tg := range c.Tags {
+			tags[tg]++
+		}
+		if !c.NonTrivial {
+			t.Fatalf("case %d holds no repeated value: %s", i, c.Hist.Sexp())
+		}
+		got := hist.NewWorld().Exec(c.Hist)
+		if m := p.Oracle(c, got); m != "" {
+			t.Fatalf("case %d %s: %s", i, c.Hist.Sexp(), m)
+		}
+		lits := c.Meta["lits"].([]c1xLit)
+		groups := c.Meta["rep"].([]c11RepGroup)
+		plain, nf := c.Meta["plain"].(bool), c.Meta["noformat"].(bool)
+		out, calls, msg := c11RepDirect(groups, lits, plain, nf, i%2 == 0, func(int) bool { return true })
+		if msg != "" || calls != len(lits) || out != got[0].Out {
+			t.Fatalf("case %d: direct build %q (%d calls, %s), history %q", i, out, calls, msg, got[0].Out)
+		}
+		// a renderer with a per-render memo that drops ".0" from the second occurrence on
+		seen := map[float64]bool{}
+		bad := false
+		for _, l := range lits {
+			f, ok := l.V.(float64)
+			if ok && l.Kind == "lit" && seen[f] && f == float64(int64(f)) && f > -1e6 && f < 1e6 {
+				bad = true
+			}
+			if ok {
+				seen[f] = true
+			}
+		}
+		if bad {
+			// rebuild the output text with the faulty renderer: replace later occurrences
+			src := got[0].Out
+			_, _, exprs, text, m := c11RepOccurrences(src, plain, groups)
+			if m != "" {
+				t.Fatal(m)
+			}
+			off := 0
+			if plain {
+				off = len("package p\n")
+			}
+			seen = map[float64]bool{}
+			k := 0
+			mut := src
+			shift := 0
+			for _, g := range groups {
+				for _, idx := range g.Occ {
+					e := exprs[k]
+					k++
+					f, ok := lits[idx].V.(float64)
+					if !ok || lits[idx].Kind != "lit" {
+						continue
+					}
+					if seen[f] && f == float64(int64(f)) && f > -1e6 && f < 1e6 {
+						tx := text(e)
+						at := int(e.Pos()) - 1 - off + shift
+						if len(tx) > 2 && tx[len(tx)-2:] == ".0" {
+							mut = mut[:at] + tx[:len(tx)-2] + mut[at+len(tx):]
+							shift -= 2
+						}
+					}
+					seen[f] = true
+				}
+			}
+			if mut != src {
+				if p.Oracle(c, c1xFakeWrite(mut)) == "" {
+					t.Fatalf("case %d: faulty output %q accepted", i, mut)
+				}
+				caught++
+			}
+		}
+	}
+	if caught < 20 {
+		t.Errorf("only %d cases expose the memoising renderer", caught)
+	}
+	for _, tg := range []string{"layout=one-statement", "layout=one-declaration-each", "layout=partition", "skeleton=eq", "skeleton=list", "skeleton=values",
+		"skeleton=append", "skeleton=decl", "companions=twins", "companions=other-kinds", "twins=zero-and-negative-zero", "render=plain-statement",
+		"repeated-kind=float64-whole", "repeated-kind=float32", "repeated-kind=bool", "repeated-kind=complex64", "same-value-times=4-5"} {
+		if tags[tg] == 0 {
+			t.Errorf("tag %s never generated", tg)
+		}
+	}
+	// shrinking keeps the form of a repetition case
+	for _, c := range cases[:200] {
+		for _, s := range p.Shrink(c) {
+			if m := p.Oracle(s, hist.NewWorld().Exec(s.Hist)); m != "" {
+				t.Fatalf("shrunk case %s: %s", s.Hist.Sexp(), m)
+			}
+		}
+	}
+}
